@@ -1,6 +1,7 @@
 package main
 
 import (
+	"fmt"
 	"go/ast"
 	"go/token"
 	"go/types"
@@ -346,50 +347,124 @@ func checkC10(c *Check) {
 	} else {
 		r3.Und("compiler.(*compiler).VisitImportStmt", token.NoPos, "function not found")
 	}
-	if fi := L.Fn("src/ast.iterateModuleImportsRec"); fi != nil {
-		info := fi.Pkg.TypesInfo
-		// order of the three steps in the body: visited[module] = ..., the loop with the recursive call, fun(module)
-		var posVisited, posRec, posFun token.Pos
-		var funParam types.Object
-		for _, f := range fi.Decl.Type.Params.List {
-			if _, ok := f.Type.(*ast.FuncType); ok && len(f.Names) == 1 {
-				funParam = info.Defs[f.Names[0]]
-			}
+	// the traversal itself is decided by evaluating ast.IterateModuleImports (engine E2, maps as references) on small
+	// import graphs with a recording callback: every module reachable from the root is visited exactly once, after
+	// every module it imports (chain, diamond, a module imported twice by one importer, diamond with a dependency
+	// between the siblings, two import statements)
+	if fi := L.Fn("src/ast.IterateModuleImports"); fi != nil {
+		type graph struct {
+			name  string
+			edges map[string][][]string // module -> import statements -> modules
+			root  string
 		}
-		overMap := false
-		ast.Inspect(fi.Decl.Body, func(n ast.Node) bool {
-			switch x := n.(type) {
-			case *ast.AssignStmt:
-				if len(x.Lhs) == 1 {
-					// the visited set: a map-typed parameter of the traversal, written under the module it is called for
-					if ix, ok := x.Lhs[0].(*ast.IndexExpr); ok && isMapType(info.TypeOf(ix.X)) && isParamOf(info, fi, ix.X) && isParamOf(info, fi, ix.Index) {
-						posVisited = x.Pos()
+		graphs := []graph{
+			{"chain A→B→C", map[string][][]string{"A": {{"B"}}, "B": {{"C"}}, "C": nil}, "A"},
+			{"diamond A→{B,C}→D", map[string][][]string{"A": {{"B"}, {"C"}}, "B": {{"D"}}, "C": {{"D"}}, "D": nil}, "A"},
+			{"module imported twice", map[string][][]string{"A": {{"B"}, {"B"}}, "B": nil}, "A"},
+			{"directory import A→{B,C}, C→B", map[string][][]string{"A": {{"C", "B"}}, "C": {{"B"}}, "B": nil}, "A"},
+			{"siblings depend on each other A→{B,C}, B→C", map[string][][]string{"A": {{"B"}, {"C"}}, "B": {{"C"}}, "C": nil}, "A"},
+		}
+		var bad []string
+		und := ""
+		for _, g := range graphs {
+			in := NewInterp(L)
+			in.RefMaps = true
+			in.MaxDepth = 12
+			mods := map[string]*Obj{}
+			var names []string
+			for n := range g.edges {
+				names = append(names, n)
+			}
+			sort.Strings(names)
+			for _, n := range names {
+				m := newObj("ast.Module")
+				m.set("FileName", StrV(n))
+				mods[n] = m
+			}
+			for _, n := range names {
+				imps := SliceV{}
+				for _, st := range g.edges[n] {
+					is := newObj("ast.ImportStmt")
+					ms := SliceV{}
+					for _, t := range st {
+						ms.Elems = append(ms.Elems, mods[t])
+					}
+					is.set("Modules", ms)
+					imps.Elems = append(imps.Elems, is)
+				}
+				mods[n].set("Imports", imps)
+			}
+			var order []string
+			cb := NativeV{F: func(args []Val) Val {
+				if len(args) == 1 {
+					if o, ok := args[0].(*Obj); ok {
+						if s, ok := o.get("FileName").(StrV); ok {
+							order = append(order, string(s))
+						}
 					}
 				}
-			case *ast.RangeStmt:
-				if isMapType(info.TypeOf(x.X)) {
-					overMap = true
-				}
-			case *ast.CallExpr:
-				if fn := Callee(info, x); fn == fi.Obj && !posRec.IsValid() {
-					posRec = x.Pos()
-				}
-				if id, ok := x.Fun.(*ast.Ident); ok && funParam != nil && info.Uses[id] == funParam {
-					posFun = x.Pos()
+				return TupleV(nil)
+			}}
+			runs, _ := in.RunAll(4, func() {
+				order = nil
+				in.CallFunc(fi, nil, []Val{mods[g.root], cb})
+			})
+			if runs != 1 {
+				und = "the traversal of '" + g.name + "' depends on something the evaluation does not know"
+				continue
+			}
+			for _, ev := range in.Events {
+				if ev.Kind == "panic" {
+					und = "panic while evaluating '" + g.name + "': " + ev.Msg
 				}
 			}
-			return true
-		})
-		// fun(module) must be a top-level statement after the loop
-		topLevelAfter := false
-		for _, st := range fi.Decl.Body.List {
-			if es, ok := st.(*ast.ExprStmt); ok && es.Pos() == posFun && posFun > posRec {
-				topLevelAfter = true
+			pos := map[string]int{}
+			for i, n := range order {
+				if _, dup := pos[n]; dup {
+					bad = append(bad, fmt.Sprintf("%s: %s is visited twice (%v)", g.name, n, order))
+				}
+				pos[n] = i
+			}
+			for _, n := range names {
+				if _, ok := pos[n]; !ok {
+					bad = append(bad, fmt.Sprintf("%s: %s is never visited (%v)", g.name, n, order))
+					continue
+				}
+				for _, st := range g.edges[n] {
+					for _, t := range st {
+						if pt, ok := pos[t]; ok && pt > pos[n] {
+							bad = append(bad, fmt.Sprintf("%s: %s is visited before %s, which it imports (%v)", g.name, n, t, order))
+						}
+					}
+				}
 			}
 		}
-		r3.Decide(posVisited.IsValid() && posRec.IsValid() && posVisited < posRec && topLevelAfter && !overMap, "ast.iterateModuleImportsRec|post-order with visited set", fi.Decl.Pos(), "mark visited, recurse into the imports (slices), then call fun(module)", "the import traversal is not 'mark visited → recurse into imports → visit the module': a module's initialiser can run before those of the modules it imports, or more than once")
+		switch {
+		case len(bad) > 0:
+			r3.Bad("ast.iterateModuleImportsRec|post-order with visited set", fi.Decl.Pos(), strings.Join(firstN(uniq(bad), 3), "; ")+": a module's initialiser can run before those of the modules it imports, or more than once")
+		case und != "":
+			r3.Und("ast.iterateModuleImportsRec|post-order with visited set", fi.Decl.Pos(), und)
+		default:
+			r3.OK("ast.iterateModuleImportsRec|post-order with visited set", fi.Decl.Pos(), fmt.Sprintf("%d import graphs evaluated: every reachable module exactly once, imports first", len(graphs)))
+		}
 	} else {
-		r3.Und("ast.iterateModuleImportsRec", token.NoPos, "function not found")
+		r3.Und("ast.IterateModuleImports", token.NoPos, "function not found")
+	}
+
+	// ---------------- R10.6 (shared with C04 R4.3b) ----------------
+	// an imported name that is already declared in the importer (by the importer itself or by an earlier import) is a
+	// reported clash on every path; it is never dropped silently (uses would bind to the module imported first)
+	r6 := c.Rule("R10.6", "a public name imported twice from different sources is a reported clash, never dropped silently", 1)
+	{
+		sub := NewCheck("C10", c.Tier, L)
+		checkRedeclarationAlwaysReported(sub)
+		for _, sr := range sub.rules {
+			for _, in := range sr.Inst {
+				if strings.Contains(in.Key, "VisitImportStmt") {
+					r6.AddAt(in.Status, strings.TrimPrefix(in.Key, sr.ID+"|"), in.Pos, in.Msg)
+				}
+			}
+		}
 	}
 
 	// ---------------- R10.4 ----------------
